@@ -777,6 +777,46 @@ def ob_encode_field(n):
               paths=len(paths))
 
 
+def replay_digest_encoding():
+    """HtdigestFile / HtpasswdFile with a file encoding other than UTF-8: a password set as text is the password checked as text
+    (and as bytes in the file's encoding), before and after a reload of the export"""
+    import passlib.apache as A
+    for enc in ("utf-8", "latin-1", "cp1252", "iso-8859-15"):
+        for pw in ("p\xe4ssw\xf6rd", "\xa3100", "caf\xe9", "plain"):
+            try:
+                pw.encode(enc)
+            except UnicodeEncodeError:
+                continue
+            ht = A.HtdigestFile(encoding=enc)
+            ht.set_password("user", "realm", pw)
+            for label, f in (("fresh", ht), ("reloaded", A.HtdigestFile.from_string(ht.to_string(), encoding=enc))):
+                if f.check_password("user", "realm", pw) is not True:
+                    return "HtdigestFile(encoding=%s) %s: check_password rejects the text password %r it was set with" % (enc, label, pw)
+                if f.check_password("user", "realm", pw.encode(enc)) is not True:
+                    return "HtdigestFile(encoding=%s) %s: check_password rejects the password %r given as bytes" % (enc, label, pw)
+                if f.check_password("user", "realm", pw + "x") is not False:
+                    return "HtdigestFile(encoding=%s) %s: a wrong password is not rejected" % (enc, label)
+            hp = A.HtpasswdFile(encoding=enc, default_scheme="apr_md5_crypt")
+            uname = "us\xe9r" if enc != "utf-8" or True else "user"
+            try:
+                uname.encode(enc)
+            except UnicodeEncodeError:
+                uname = "user"
+            hp.set_password(uname, pw)
+            back = A.HtpasswdFile.from_string(hp.to_string(), encoding=enc)
+            if back.check_password(uname, pw) is not True or back.check_password(uname, pw + "x") is not False:
+                return "HtpasswdFile(encoding=%s): user %r / password %r do not survive the export" % (enc, uname, pw)
+    return False
+
+
+def ob_digest_encoding():
+    r = replay_digest_encoding()
+    if r:
+        return violation(r, "htdigest:encoding", {"module": "harness.c16", "func": "replay_digest_encoding", "args": {}})
+    return ok("4 file encodings x 4 passwords (non-ASCII): set as text, checked as text and as bytes, fresh and after reload "
+              "(enumeration)", paths=32, verdict="finite-enumeration", nontrivial=False)
+
+
 def ob_encode_field_text(pattern):
     """text names: the 255 limit counts encoded bytes, whatever the characters (symbolic characters of the given UTF-8 widths)"""
     import passlib.apache as A
@@ -871,6 +911,7 @@ def run(tier, seed, t0, only=None):
         obs.append(Ob("load[htdigest,n=%d]" % n, ob_load, {"n": n, "cls": "htdigest"}, timeout=3000))
     for n in (0, 1, 2, 3, 255, 256):
         obs.append(Ob("encode-field[n=%d]" % n, ob_encode_field, {"n": n}, timeout=900))
+    obs.append(Ob("file-encodings", ob_digest_encoding, timeout=300))
     for pat in ((2,) * 127 + (1,), (2,) * 128, (3,) * 85, (3,) * 85 + (1,), (1,) * 255, (1,) * 256, (4,) * 64, (2, 1)):
         obs.append(Ob("encode-field-text[%dx%d%s]" % (len(pat), pat[0], "+1" if pat[-1] != pat[0] else ""), ob_encode_field_text, {"pattern": pat}, timeout=900))
     for c_ in ("htpasswd", "htdigest"):
